@@ -40,14 +40,14 @@ var wkNames = []string{"KOne", "KOptI", "KOptP", "KListI", "KListS", "KListW"}
 
 // visit shapes
 const (
-	wsDirect      = iota // Walk(v, X.F)
-	wsAddr               // Walk(v, &X.F)
-	wsGuard              // if X.F != nil { Walk(v, X.F) }
-	wsLoopIdx            // [if n.F != nil {] for i := 0; i < len(n.F); i++ { Walk(v, n.F[i]) } [}]
-	wsLoopIdxAddr        // same with Walk(v, &n.F[i])
-	wsLoopRange          // for _, item := range n.F { Walk(v, item) }
-	wsLoopWrap           // for _, item := range n.F { if item.A != nil {..} else if .. else { Walk(v, &item.C) } }   (item is a COPY)
-	wsLoopWrapAddr       // for i := range n.F { item := &n.F[i]; if item.A != nil {..} else if .. else { Walk(v, &item.C) } }
+	wsDirect       = iota // Walk(v, X.F)
+	wsAddr                // Walk(v, &X.F)
+	wsGuard               // if X.F != nil { Walk(v, X.F) }
+	wsLoopIdx             // [if n.F != nil {] for i := 0; i < len(n.F); i++ { Walk(v, n.F[i]) } [}]
+	wsLoopIdxAddr         // same with Walk(v, &n.F[i])
+	wsLoopRange           // for _, item := range n.F { Walk(v, item) }
+	wsLoopWrap            // for _, item := range n.F { if item.A != nil {..} else if .. else { Walk(v, &item.C) } }   (item is a COPY)
+	wsLoopWrapAddr        // for i := range n.F { item := &n.F[i]; if item.A != nil {..} else if .. else { Walk(v, &item.C) } }
 )
 
 var wsNames = []string{"SDirect", "SAddr", "SGuard", "SLoopIdx", "SLoopIdxAddr", "SLoopRange", "SLoopWrap", "SLoopWrapAddr"}
@@ -60,18 +60,18 @@ type wField struct {
 }
 
 type wVisit struct {
-	Alt    bool     // if/else-if/else chain: the first alternative whose field is non-nil, else the last
-	Shapes []int    // one per alternative (len 1 when !Alt)
-	Fields []int    // field index within the type's schema
+	Alt    bool  // if/else-if/else chain: the first alternative whose field is non-nil, else the last
+	Shapes []int // one per alternative (len 1 when !Alt)
+	Fields []int // field index within the type's schema
 }
 
 type wType struct {
 	Name    string
 	Fields  []wField
-	Wrapper bool      // implements INode syntactically but is walked inline by its parent's loop
-	HasArm  bool      // walk.go has `case *Name:` (or, for a wrapper, the inline chain)
+	Wrapper bool // implements INode syntactically but is walked inline by its parent's loop
+	HasArm  bool // walk.go has `case *Name:` (or, for a wrapper, the inline chain)
 	Visits  []wVisit
-	Alts    [][]int   // groups of fields of which at most one is set (from the if/else chains)
+	Alts    [][]int // groups of fields of which at most one is set (from the if/else chains)
 }
 
 type wExcluded struct{ Type, Field, GoType, Reason string }
@@ -120,7 +120,9 @@ func hasVerifTag(src []byte) bool {
 			return false
 		}
 		if strings.HasPrefix(t, "//go:build") || strings.HasPrefix(t, "// +build") {
-			for _, w := range strings.FieldsFunc(t, func(r rune) bool { return !(r == '_' || r >= 'a' && r <= 'z' || r >= 'A' && r <= 'Z' || r >= '0' && r <= '9') }) {
+			for _, w := range strings.FieldsFunc(t, func(r rune) bool {
+				return !(r == '_' || r >= 'a' && r <= 'z' || r >= 'A' && r <= 'Z' || r >= '0' && r <= '9')
+			}) {
 				if w == "verif" {
 					return true
 				}
